@@ -47,9 +47,9 @@ func TestMain(m *testing.M) {
 
 // Mut is one mutation of a genuine artifact.
 type Mut struct {
-	On   string `json:"on"`   // proofbytes | proofobj | witbytes | witobj
-	Op   string `json:"op"`   // see apply*
-	A    int    `json:"a"`    // generic parameters
+	On   string `json:"on"` // proofbytes | proofobj | witbytes | witobj
+	Op   string `json:"op"` // see apply*
+	A    int    `json:"a"`  // generic parameters
 	B    int    `json:"b"`
 	Raw  bool   `json:"raw"`  // start from the raw (uncompressed) encoding
 	Data []byte `json:"data"` // garbage / replacement bytes
@@ -392,6 +392,32 @@ func run(c Case, rec *ev.Recorder) ev.Outcome {
 				}
 			}
 			l.Set(nl)
+			if m.Op == "compensate-claimed" && c.Backend == "plonk" {
+				// the compensating list is the claimed values of the batched opening
+				// (one per BSB22 commitment plus 6 fixed ones); the public witness is genuine
+				cv := zk.Path(root, "BatchedProof.ClaimedValues")
+				cn := cv.Len()
+				want := cn + (n - newLen)
+				if want < 0 {
+					want = 0
+				}
+				ncv := reflect.MakeSlice(cv.Type(), want, want)
+				reflect.Copy(ncv, cv)
+				for i := cn; i < want; i++ {
+					ncv.Index(i).Set(cv.Index(i % max(cn, 1)))
+				}
+				cv.Set(ncv)
+				verr := e.verify(p, mkPub(q, e.pub))
+				if isPanic(verr) {
+					return ev.Outcome{Violation: where + fmt.Sprintf("Verify panicked on a proof with %d instead of %d Bsb22Commitments and %d instead of %d claimed values: ", newLen, n, want, cn) + firstLine(verr.Error())}
+				}
+				if verr == nil {
+					return ev.Outcome{Violation: where + fmt.Sprintf("Verify ACCEPTED a proof with %d instead of %d Bsb22Commitments and %d instead of %d claimed values", newLen, n, want, cn)}
+				}
+				nontrivial = true
+				classes = append(classes, "combo:compensate-claimed")
+				continue
+			}
 			pub := append([]*big.Int(nil), e.pub...)
 			for len(pub) < len(e.pub)+(n-newLen) {
 				pub = append(pub, big.NewInt(int64(m.B)))
@@ -550,7 +576,7 @@ func genMut(t *rapid.T) Mut {
 	case 4:
 		m.On, m.Op = "proofobj", rapid.SampledFrom([]string{"resize", "resize", "nil"}).Draw(t, "op")
 	case 5:
-		m.On, m.Op = "combo", "compensate"
+		m.On, m.Op = "combo", rapid.SampledFrom([]string{"compensate", "compensate-claimed"}).Draw(t, "op")
 	case 6, 7:
 		m.On, m.Op = "witbytes", rapid.SampledFrom(witByteOps).Draw(t, "op")
 		if m.Op == "garbage" {
@@ -576,7 +602,7 @@ func genCase(curves []string) *rapid.Generator[Case] {
 	})
 }
 
-const rule = "genuine (proof, key, witness) triples of rapid-generated circuits (0-2 commitments) on all curves and both backends; 6-14 drawn mutations per case: proof bytes (compressed and raw) with length prefixes set to 0..8 / true±1, truncated at every slot boundary and mid-slot, trailing garbage, bit flips, all zeros; proof objects with commitment / claimed-value lists resized or nil; public witnesses shorter / longer / empty / full / of another field; witness bytes with header or length prefix disagreeing with the payload, truncated, extended, non-reduced element. Oracle: no panic in ReadFrom / UnmarshalBinary / Verify / Public / Vector, byte counts within the input, structurally inconsistent inputs are errors (never accepted, never decoded silently). Non-trivial: a mutation that reaches a variable-length member or a malformed witness. Length prefixes are capped at payload/elemsize+64 (open finding F05, counted). Distinct: SHA-256 of the case JSON."
+const rule = "genuine (proof, key, witness) triples of rapid-generated circuits (0-2 commitments) on all curves and both backends; 6-14 drawn mutations per case: proof bytes (compressed and raw) with length prefixes set to 0..8 / true±1, truncated at every slot boundary and mid-slot, trailing garbage, bit flips, all zeros; proof objects with commitment / claimed-value lists resized or nil, and two compensating edits (commitments vs public witness, BSB22 commitments vs claimed values); public witnesses shorter / longer / empty / full / of another field; witness bytes with header or length prefix disagreeing with the payload, truncated, extended, non-reduced element. Oracle: no panic in ReadFrom / UnmarshalBinary / Verify / Public / Vector, byte counts within the input, structurally inconsistent inputs are errors (never accepted, never decoded silently). Non-trivial: a mutation that reaches a variable-length member or a malformed witness. Length prefixes are capped at payload/elemsize+64 (open finding F05, counted). Distinct: SHA-256 of the case JSON."
 
 func curves() []string {
 	all := []string{"bn254", "bls12-377", "bls12-381", "bls24-315", "bls24-317", "bw6-633", "bw6-761"}
